@@ -119,7 +119,7 @@ def run(ctx):
 
     # 2. binding: behaviours from TLC -simulate, replayed on the real stack
     nruns = 10 if thorough else 2
-    per_run = 260 if thorough else 100
+    per_run = 260 if thorough else 80
     behaviours = []
     for i in range(nruns):
         behaviours += ctx.tlc_simulate(FAMILY, "RpcReadMBT.tla", "RpcRead_sim.cfg", depth=(STEPS + 1) * per_run,
